@@ -79,6 +79,8 @@ type c13In struct {
 	Server    bool        `json:"server,omitempty"` // conc: a real httptest server and http.DefaultTransport-like transport
 	PreClient bool        `json:"pre_client,omitempty"`
 	NilHeader bool        `json:"nil_header,omitempty"` // resp: the round tripper returns a nil header map (only without headers)
+	ReadChunk int         `json:"read_chunk,omitempty"` // resp: 0 the body is read with io.ReadAll; k > 0: with Read calls on a k-byte buffer
+	ViaCons   bool        `json:"via_cons,omitempty"`   // resp: the reader hands Body() to the consumer it was given (as generated readers do); the consumer keeps what it receives
 	// route
 	OpCfg    *c13Client `json:"op_cfg,omitempty"` // nil: no operation client
 	RtCfg    *c13Client `json:"rt_cfg,omitempty"`
@@ -172,7 +174,7 @@ func init() { register(c13{}) }
 func (c13) ID() string        { return "C13" }
 func (c13) CoqModule() string { return "Check_C13" }
 func (c13) Rule() string {
-	return "Submit against a stub RoundTripper: response Content-Type registered / unregistered / with parameters / other case / absent / empty / several values / malformed, " +
+	return "Submit against a stub RoundTripper: response bodies beginning with a UTF-8 / UTF-16 / UTF-32 byte order mark, a truncated or doubled mark, a magic number (gzip, zip, png, pdf), NUL, blanks, empty, one byte, random bytes, read whole or in small chunks by the reader or by the consumer it was handed; response Content-Type registered / unregistered / with parameters / other case / absent / empty / several values / malformed, " +
 		"consumer registries with and without */* (and with a never-matching upper-case key), default media types, status codes and texts, header sets queried under several spellings, " +
 		"operation-level vs transport-level client and context; route cases: operation client absent / with / without a Transport of its own x runtime client lazily built or preset, each marked by redirect policy, cookie jar, timeout, against a redirecting (optionally slow) stub; " +
 		"context cases: operation context and runtime context each absent / plain / with a deadline earlier or later than the other's / cancelled beforehand, with and without a request timeout, the operation's or the runtime's context cancelled while the round tripper holds the request (observed: whose value and which deadline arrive, whether the request context ends, whether Submit fails); " +
@@ -186,9 +188,35 @@ func (c13) Decode(raw json.RawMessage) (any, error) {
 	return in, err
 }
 
-type c13Consumer struct{ tag int }
+type c13Consumer struct {
+	tag   int
+	chunk int
+	got   []byte
+}
 
-func (c *c13Consumer) Consume(r io.Reader, v interface{}) error { return nil }
+// Consume keeps, byte for byte, what the consumer receives (cases without via_cons never call it).
+func (c *c13Consumer) Consume(r io.Reader, v interface{}) error {
+	c.got = c13ReadBody(r, c.chunk)
+	return nil
+}
+
+// c13ReadBody drains r: with io.ReadAll (chunk 0) or with Read calls on a chunk-sized buffer until an error.
+func c13ReadBody(r io.Reader, chunk int) []byte {
+	if chunk <= 0 {
+		b, _ := io.ReadAll(r)
+		return b
+	}
+	var out []byte
+	buf := make([]byte, chunk)
+	for i := 0; i < 1<<20; i++ {
+		n, err := r.Read(buf)
+		out = append(out, buf[:n]...)
+		if err != nil {
+			break
+		}
+	}
+	return out
+}
 
 type c13CtxKey struct{}
 
@@ -270,7 +298,7 @@ func (c13) Run(inAny any) any {
 	cons := map[string]runtime.Consumer{}
 	tags := map[runtime.Consumer]int{}
 	for i, k := range in.Registry {
-		c := &c13Consumer{tag: i + 1}
+		c := &c13Consumer{tag: i + 1, chunk: in.ReadChunk}
 		cons[string(k)] = c
 		tags[c] = i + 1
 	}
@@ -286,8 +314,12 @@ func (c13) Run(inAny any) any {
 	reader := runtime.ClientResponseReaderFunc(func(resp runtime.ClientResponse, c runtime.Consumer) (interface{}, error) {
 		obs.Tag = tags[c]
 		obs.Code, obs.Status = resp.Code(), Bs(resp.Message())
-		b, _ := io.ReadAll(resp.Body())
-		obs.Body = Bs(b)
+		if cc, ok := c.(*c13Consumer); ok && in.ViaCons {
+			_ = cc.Consume(resp.Body(), nil)
+			obs.Body = Bs(cc.got)
+		} else {
+			obs.Body = Bs(c13ReadBody(resp.Body(), in.ReadChunk))
+		}
 		for i, q := range in.Queries {
 			obs.Queries[i].One = Bs(resp.GetHeader(string(q)))
 			obs.Queries[i].All = toBs(resp.GetHeaders(string(q)))
@@ -367,7 +399,7 @@ func c13RunConc(in c13In) c13Obs {
 		rt = client.New(host, "/", []string{"http"})
 		rt.Transport = c13Transport(in)
 	}
-	cj, ct, cs := &c13Consumer{1}, &c13Consumer{2}, &c13Consumer{3}
+	cj, ct, cs := &c13Consumer{tag: 1}, &c13Consumer{tag: 2}, &c13Consumer{tag: 3}
 	rt.Consumers = map[string]runtime.Consumer{"application/json": cj, "text/plain": ct, "*/*": cs}
 	wantTag := []int{1, 2, 3}
 	var mismatches, errs int32
@@ -633,7 +665,7 @@ func c13RunRoute(in c13In) c13Obs {
 			rt.Jar = &c13Jar{who: c13WhoRt, rec: rec}
 		}
 	}
-	cj := &c13Consumer{1}
+	cj := &c13Consumer{tag: 1}
 	rt.Consumers = map[string]runtime.Consumer{"application/json": cj}
 	rt.Context = nil
 	if in.RtCtx {
@@ -733,7 +765,7 @@ func c13RunSeq(in c13In) c13Obs {
 	cons := map[string]runtime.Consumer{}
 	tags := map[runtime.Consumer]int{}
 	for i, k := range in.Registry {
-		c := &c13Consumer{tag: i + 1}
+		c := &c13Consumer{tag: i + 1, chunk: in.ReadChunk}
 		cons[string(k)] = c
 		tags[c] = i + 1
 	}
@@ -881,7 +913,7 @@ func c13RunCtx(in c13In) c13Obs {
 	stub := &c13CtxStub{base: base, action: in.Action, seen: c13Seen{Value: 9}}
 	rt := client.New("example.com", "/", []string{"http"})
 	rt.Transport = stub
-	rt.Consumers = map[string]runtime.Consumer{"application/json": &c13Consumer{1}}
+	rt.Consumers = map[string]runtime.Consumer{"application/json": &c13Consumer{tag: 1}}
 	rt.Context = nil
 	if in.RtCtxCfg != nil {
 		rt.Context, stub.cancelRt = c13MakeCtx(*in.RtCtxCfg, "rt", base)
@@ -1122,7 +1154,32 @@ func (c13) Category(inAny any, obsAny any) (string, bool) {
 	if in.OpClient {
 		who = "op-client"
 	}
-	return "resp/" + ct + "/" + reg + "/" + out + "/" + who, len(in.Registry) >= 2
+	return "resp/" + ct + "/" + reg + "/" + out + "/" + who + "/body:" + c13BodyClass([]byte(in.Body)), len(in.Registry) >= 2
+}
+
+// c13BodyClass names how the body sent by the server begins (the reader must see it byte for byte whatever that is).
+func c13BodyClass(b []byte) string {
+	switch {
+	case len(b) == 0:
+		return "empty"
+	case bytes.HasPrefix(b, []byte{0xEF, 0xBB, 0xBF}):
+		return "utf8-bom"
+	case bytes.HasPrefix(b, []byte{0xFF, 0xFE}), bytes.HasPrefix(b, []byte{0xFE, 0xFF}), bytes.HasPrefix(b, []byte{0, 0, 0xFE, 0xFF}):
+		return "utf16/32-bom"
+	case b[0] == 0:
+		return "nul"
+	case len(b) == 1:
+		return "one-byte"
+	case b[0] == 0xEF:
+		return "bom-lookalike"
+	case bytes.HasPrefix(b, []byte{0x1F, 0x8B}), bytes.HasPrefix(b, []byte("PK")), bytes.HasPrefix(b, []byte("\x89PNG")), bytes.HasPrefix(b, []byte("%PDF")):
+		return "magic"
+	case b[0] == ' ' || b[0] == '\n' || b[0] == '\r' || b[0] == '\t':
+		return "blank-first"
+	case b[0] < 0x20 || b[0] >= 0x7F:
+		return "binary"
+	}
+	return "text"
 }
 
 // ---------- generator ----------
@@ -1149,6 +1206,40 @@ var c13Defaults = []string{"application/json", "application/json", "text/plain",
 var c13Codes = []int{200, 200, 201, 204, 206, 301, 304, 400, 401, 404, 418, 500, 503, 599}
 var c13HeaderKeys = []string{"X-Request-Id", "X-Rate-Limit", "Etag", "Set-Cookie", "Content-Length", "X-Multi"}
 var c13QueryNames = []string{"x-request-id", "X-REQUEST-ID", "X-Request-Id", "etag", "ETag", "content-type", "Content-Type", "X-Missing", "x-multi", "set-cookie", "x rate limit", "X-Rate-Limit"}
+
+// how a response body may begin: byte order marks of every flavour (a UTF-8 one in front of a document is common with
+// some servers), truncated and doubled marks, magic numbers of compressed / archive / image formats, NUL, blanks
+var c13BodyHeads = []string{
+	"", "\xEF\xBB\xBF", "\xEF\xBB\xBF\xEF\xBB\xBF", "\xEF\xBB", "\xEF", "\xEF\xBB\xBE", "\xEF\xBF\xBD", "\xBB\xBF", "\xEF\xBB\xBF\x00",
+	"\xFF\xFE", "\xFE\xFF", "\xFF\xFE\x00\x00", "\x00\x00\xFE\xFF", "\x00", "\x00\x00\x00", "\x1F\x8B\x08\x00", "PK\x03\x04", "\x89PNG\r\n\x1a\n", "%PDF-1.4\n",
+	" ", "\n", "\r\n", "\r", "\t", "\xC3\xA9", "\xFF", "\x7F", "\x1B[0m",
+}
+var c13BodyTails = []string{
+	"", "{\"a\":1}", "{\"a\":1}\n", "id;name\n1;x\n", "a,b\r\n1,2\r\n", "<?xml version=\"1.0\"?><a/>", "plain text", "x", "\x00", "\n",
+	"tail \xEF\xBB\xBF inside", "ends with a mark \xEF\xBB\xBF", "[1,2,3]", "\"str\"", "null",
+}
+
+// c13GenBody: half of the bodies are a head from the pool followed by a document, now and then longer than the
+// buffers a wrapping reader would use; the others random bytes, possibly none.
+func c13GenBody(r *rand.Rand) []byte {
+	switch r.Intn(8) {
+	case 0, 1, 2, 3:
+		b := []byte(c13BodyHeads[r.Intn(len(c13BodyHeads))] + c13BodyTails[r.Intn(len(c13BodyTails))])
+		if r.Intn(30) == 0 {
+			b = append(b, bytes.Repeat([]byte("0123456789abcdef"), 260+r.Intn(40))...) // beyond 4096
+		}
+		return b
+	case 4:
+		return []byte{byte(r.Intn(256))}
+	case 5:
+		return []byte(c13BodyHeads[r.Intn(len(c13BodyHeads))])
+	}
+	body := make([]byte, r.Intn(200))
+	for j := range body {
+		body[j] = byte(r.Intn(256))
+	}
+	return body
+}
 
 func (c13) Gen(r *rand.Rand, tier string, i int) any {
 	if i%97 == 96 {
@@ -1199,11 +1290,9 @@ func (c13) Gen(r *rand.Rand, tier string, i int) any {
 		}
 	}
 	r.Shuffle(len(in.Headers), func(a, b int) { in.Headers[a], in.Headers[b] = in.Headers[b], in.Headers[a] })
-	body := make([]byte, r.Intn(200))
-	for j := range body {
-		body[j] = byte(r.Intn(256))
-	}
-	in.Body = Bs(body)
+	in.Body = Bs(c13GenBody(r))
+	in.ReadChunk = []int{0, 0, 1, 2, 3, 5, 512, 4096}[r.Intn(8)]
+	in.ViaCons = r.Intn(2) == 0
 	for j := r.Intn(4); j > 0; j-- {
 		in.Queries = append(in.Queries, Bs(c13QueryNames[r.Intn(len(c13QueryNames))]))
 	}
@@ -1315,6 +1404,23 @@ func (c13) Enumerate(tier string) []any {
 	for _, d := range c13NearCTs[:6] {
 		for _, reg := range regs[1:4] {
 			out = append(out, c13In{Kind: "resp", Default: Bs(d), Registry: reg, Code: 200, Status: "200 OK", Body: "body", Queries: []Bs{"Content-Type"}})
+		}
+	}
+	// the body reaches the reader byte for byte: every way a body may begin x a few documents x media type (registered text
+	// types, served by the catch-all, binary, absent header) x how it is read
+	bodyCTs := []string{"application/json", "text/csv; charset=utf-8", "application/octet-stream", "<absent>", "text/plain"}
+	bn := 0
+	for _, head := range c13BodyHeads {
+		for _, tail := range []string{"", "{\"a\":1}", "id;name\n1;x\n"} {
+			for _, ct := range bodyCTs {
+				in := c13In{Kind: "resp", Default: "application/json", Registry: []Bs{"application/json", "text/plain", "*/*"}, Code: 200, Status: "200 OK",
+					Body: Bs(head + tail), ReadChunk: []int{0, 1, 3, 4096}[bn%4], ViaCons: bn%3 != 0}
+				if ct != "<absent>" {
+					in.Headers = []c13Header{{Key: "Content-Type", Values: []Bs{Bs(ct)}}}
+				}
+				out = append(out, in)
+				bn++
+			}
 		}
 	}
 	// which client object carries the call: every operation client x every runtime client
